@@ -97,6 +97,20 @@ theorem asmAcc_bounded (w : Ex) (lo hi : Rat) (ih : AsmAcc x subs p ps w) :
     simp only [Ex.assemble, hm]
     rw [ih hr hf, acc_bounded]
 
+theorem asmAcc_unary (u : Nat) (w : Ex) (ih : AsmAcc x subs p ps w) :
+    AsmAcc x subs p ps (.unary u w) := by
+  intro hr hf
+  cases hm : (Ex.unary u w).matchIdx subs with
+  | some i =>
+    simp only [Ex.resolved, hm] at hr
+    simp only [Ex.assemble, hm]
+    exact asmAcc_matched x hirr hm hr
+  | none =>
+    simp only [Ex.resolved, hm] at hr
+    simp only [Ex.openConds, hm] at hf
+    simp only [Ex.assemble, hm]
+    rw [ih hr hf, acc_unary]
+
 include hp0 in
 /-- THE ALGEBRAIC LEMMA: assembling the columns' accumulations of `ps` = accumulating `ps`, each
     point with the row's IF conditions appended, directly with `e` -/
@@ -120,8 +134,8 @@ theorem assemble_acc : ∀ (e : Ex), e.valid = true → e.noPtile = true → Asm
     intro hv hp
     exact asmAcc_bounded x hirr w lo hi (ih (by simpa [Ex.valid] using hv) (by simpa [Ex.noPtile] using hp))
   | unary f w ih =>
-    intro hv hp hr hf
-    exact ih (by simpa [Ex.valid] using hv) (by simpa [Ex.noPtile] using hp) hr hf
+    intro hv hp
+    exact asmAcc_unary x hirr f w (ih (by simpa [Ex.valid] using hv) (by simpa [Ex.noPtile] using hp))
   | shift w off _ => intro _ _ hr; simp [Ex.resolved] at hr
   | ptile id v pe n _ _ => intro _ hp; simp [Ex.noPtile] at hp
 
